@@ -26,7 +26,7 @@ from harness.common import parse_coq_value, eval_outputs
 
 LEVEL = 'proof'
 
-REQUIRED = ['C09_restart_semantics', 'C09_accept_semantics', 'C09_it_pass_spec', 'C09_flags_upward_closed',
+REQUIRED = ['C09_restart_semantics', 'C09_accept_semantics', 'C09_run_restart_semantics', 'C09_it_pass_spec', 'C09_flags_upward_closed',
             'C09_flags_all_equal', 'C09_counter_first_slot', 'C09_budget_exhausted', 'C09_raise_iff',
             'C09_retry_bound', 'C09_run_progress', 'C09_proposal_order', 'C09_restart_iff',
             'C09_accepted_error_below_tol', 'C09_clip_in_range', 'C09_slope_cases', 'C09_rejected_gets_smaller',
@@ -83,20 +83,23 @@ def describe(cfg, script, res):
             'how': 'harness.c09_lib.run_scripted(cfg, Script(entries, default_err))'}
 
 
+_SEEN = {}
+
+
 def report(ck, fails, replay, prefix=''):
-    """Turn oracle failures into violations (one per distinct match)."""
-    seen = set()
+    """Turn oracle failures into violations (at most two per distinct match over the whole run)."""
     for clause, detail, match in fails:
-        key = tuple(sorted(match.items()))
-        if key in seen:
+        key = (prefix,) + tuple(sorted(match.items()))
+        _SEEN[key] = _SEEN.get(key, 0) + 1
+        if _SEEN[key] > 2:
             continue
-        seen.add(key)
         ck.violation('%sclause %s fails on the real controller: %s' % (prefix, clause, {k: detail[k] for k in list(detail)[:4]}),
                      dict(replay, clause=clause, detail=detail), match=match)
 
 
 def run(ck):
     rng = ck.rng
+    _SEEN.clear()
     thorough = ck.tier == 'thorough'
     ck.rule = ('scripted runs: num_procs 1-4 x maxiter 1-3 x max_restarts {0,1,2,3,5} x crash x restart_from_first_step x '
                'Adaptivity on/off x random limiter subsets x seeded fault scripts (error estimates around e_tol incl. equality, '
@@ -169,7 +172,9 @@ def run(ck):
         d = L.first_difference(L.impl_view(res), L.model_view(vals[idx]))
         if d is not None:
             ndiff += 1
-            if not fails:
+            key = ('correspondence', d['what'])
+            _SEEN[key] = _SEEN.get(key, 0) + 1
+            if not fails and _SEEN[key] <= 2:
                 ck.violation('the real controller and the Coq model of BasicRestarting/Adaptivity/limiters/SpreadStepSizes/run() '
                              'disagree (%s, attempt %s) but no clause of the property fails on this trace' % (d['what'], d['attempt']),
                              dict(replay, difference=d), match={'kind': 'correspondence', 'what': d['what']}, no_input=True)
